@@ -498,7 +498,11 @@ class UnionMetaType(StructureMetaType):
         else:
             result = {}
             sizes = {}
-            buf = stream.read(cls.size)
+            size = cls.size
+            buf = stream.read(size)
+
+        if len(buf) != size:
+            raise EOFError(f"Read {len(buf)} bytes, but expected {size}")
 
         # Create the object and set the values
         # Using type.__call__ directly calls the __init__ method of the class
